@@ -1,0 +1,55 @@
+// SPDX-FileCopyrightText: 2022-present Intel Corporation
+//
+// SPDX-License-Identifier: Apache-2.0
+
+//go:build verif
+
+// Contracts for the deductive verifier in /verif (govc). Comment-only: this file contains no code
+// and is excluded from every build that does not set the "verif" tag.
+
+package gnmi
+
+//@ import gpb "github.com/openconfig/gnmi/proto/gnmi"
+//@ import gnmi_ext "github.com/openconfig/gnmi/proto/gnmi_ext"
+//@ import codes "google.golang.org/grpc/codes"
+//@ import errors "github.com/onosproject/onos-lib-go/pkg/errors"
+
+// Ghost view of the device side of a southbound Set.
+//@ ghost deviceSetCalls int
+//@ ghost deviceCode int
+//@ ghost lastSetElectionLow int
+//@ ghost lastSetElectionHigh int
+//@ ghost lastSetHasArbitration bool
+//@ ghost lastSetConn int
+//@ ghost lastSetRequest int
+
+// The last extension of a SetRequest, seen as a master-arbitration extension.
+//@ spec lastExt(r *gpb.SetRequest) *gnmi_ext.Extension = r.Extension[len(r.Extension) - 1]
+//@ spec hasArbitration(r *gpb.SetRequest) bool = len(r.Extension) > 0 && lastExt(r) != nil && isType(lastExt(r).Ext, "*gnmi_ext.Extension_MasterArbitration") && asType(lastExt(r).Ext, "*gnmi_ext.Extension_MasterArbitration") != nil && asType(lastExt(r).Ext, "*gnmi_ext.Extension_MasterArbitration").MasterArbitration != nil && asType(lastExt(r).Ext, "*gnmi_ext.Extension_MasterArbitration").MasterArbitration.ElectionId != nil
+//@ spec electionLow(r *gpb.SetRequest) int = asType(lastExt(r).Ext, "*gnmi_ext.Extension_MasterArbitration").MasterArbitration.ElectionId.Low
+//@ spec electionHigh(r *gpb.SetRequest) int = asType(lastExt(r).Ext, "*gnmi_ext.Extension_MasterArbitration").MasterArbitration.ElectionId.High
+
+// kind of the onos-lib-go TypedError that errors.FromGRPC builds for a gRPC code (table in onos-lib-go errors.go)
+//@ spec kindOfCode(c int) int = ite(c == codes.Canceled, errors.Canceled, ite(c == codes.NotFound, errors.NotFound, ite(c == codes.AlreadyExists, errors.AlreadyExists, ite(c == codes.Unauthenticated, errors.Unauthorized, ite(c == codes.PermissionDenied, errors.Forbidden, ite(c == codes.FailedPrecondition, errors.Conflict, ite(c == codes.InvalidArgument, errors.Invalid, ite(c == codes.Unavailable, errors.Unavailable, ite(c == codes.Unimplemented, errors.NotSupported, ite(c == codes.DeadlineExceeded, errors.Timeout, ite(c == codes.Internal, errors.Internal, errors.Unknown)))))))))))
+
+//@ iface Client.Set(ctx, r) (resp, err)
+//@   requires r != nil
+//@   modifies deviceSetCalls, deviceCode, lastSetElectionLow, lastSetElectionHigh, lastSetHasArbitration, lastSetConn, lastSetRequest
+//@   ensures deviceSetCalls == old(deviceSetCalls) + 1
+//@   ensures lastSetRequest == r
+//@   ensures lastSetHasArbitration == hasArbitration(r)
+//@   ensures hasArbitration(r) ==> lastSetElectionLow == electionLow(r) && lastSetElectionHigh == electionHigh(r)
+//@   ensures 0 <= deviceCode && deviceCode <= 16
+//@   ensures (err == nil) == (deviceCode == codes.OK)
+//@   ensures err != nil ==> isTyped(err) && asType(err, "*errors.TypedError") != nil && errKind(err) == kindOfCode(deviceCode)
+//@   ensures err == nil ==> resp != nil
+
+//@ iface Client.Capabilities(ctx, r) (resp, err)
+//@   modifies nothing
+//@   ensures err == nil ==> resp != nil
+
+//@ iface ConnManager.Get(ctx, connID) (conn, ok)
+//@   modifies nothing
+//@   ensures ok ==> conn != nil
+//@   ensures ok ==> connIDOf(conn) == connID
+//@ uninterp connIDOf(Conn) string
